@@ -27,10 +27,10 @@ func init() {
 	register(ruleDef{ID: "R2.9", Prop: "C02", Tier: "quick", Floor: 3,
 		Title: "range delete (shared with R5.4): keys found by the scan are deleted through a batch of the request's own context (tombstone at the request's version), never by deleting the stored key of an ancestor version",
 		Fn:    ruleR5_4})
-	register(ruleDef{ID: "R3.9", Prop: "C03", Tier: "quick", Floor: 3,
+	register(ruleDef{ID: "R3.9", Prop: "C03", Tier: "quick", Floor: 2,
 		Title: "append-only logs: every open of a mutation-log file for writing appends (O_APPEND), so earlier records survive later writes",
 		Fn:    ruleLogAppendOnly})
-	register(ruleDef{ID: "R4.5", Prop: "C04", Tier: "quick", Floor: 3,
+	register(ruleDef{ID: "R4.5", Prop: "C04", Tier: "quick", Floor: 2,
 		Title: "append-only logs (shared with R3.9): every open of a mutation-log file for writing appends (O_APPEND)",
 		Fn:    ruleLogAppendOnly})
 	register(ruleDef{ID: "R7.7", Prop: "C07", Tier: "quick", Floor: 2,
@@ -492,14 +492,7 @@ func ruleR2_10(r *Run) {
 	n := 0
 	for _, st := range fieldStores(f, "nodeT", "locked") {
 		n++
-		isSave := func(in ssa.Instruction) bool {
-			c, ok := in.(ssa.CallInstruction)
-			if !ok {
-				return false
-			}
-			nm := callName(c)
-			return nm == "save" || nm == "saveToStore"
-		}
+		isSave := func(in ssa.Instruction) bool { return w.performs(in, []string{"save", "saveToStore"}, 2) }
 		p := findPath(f, st, isSave, successExit, nil)
 		r.check(p == nil, "repoManager.commit:locked-flag-saved", "after node.locked is set every success exit passes the repo save",
 			"commit can set the locked flag in memory and return success without saving the repo: after a restart the version is open again and accepts writes although it was committed", w.pos(st.Pos()), w.renderPath(p)...)
@@ -508,10 +501,10 @@ func ruleR2_10(r *Run) {
 }
 
 func init() {
-	register(ruleDef{ID: "R2.7", Prop: "C02", Tier: "quick", Floor: 6,
+	register(ruleDef{ID: "R2.7", Prop: "C02", Tier: "quick", Floor: 4,
 		Title: "id counters (shared with R12.1): version/repo/instance id counters are incremented under idMutex and persisted after the increment; a counter that falls back after a restart hands a committed version's id to a new, writable version",
 		Fn:    func(r *Run) { checkCounterPersist(r) }})
-	register(ruleDef{ID: "R4.6", Prop: "C04", Tier: "quick", Floor: 6,
+	register(ruleDef{ID: "R4.6", Prop: "C04", Tier: "quick", Floor: 4,
 		Title: "id counters (shared with R12.1): every increment of an id counter is persisted before the operation is acknowledged, so a crash afterwards cannot re-issue the id",
 		Fn:    func(r *Run) { checkCounterPersist(r) }})
 	register(ruleDef{ID: "R4.7", Prop: "C04", Tier: "quick", Floor: 6,
